@@ -181,6 +181,26 @@ def run(ctx):
                     ctx.violation("a backward '. =' was not refused", inp, expected="value-out-of-bounds", observed=r.summary())
             reqs.append(asmrun.asm_request(files, 1))
             jobs.append((inp, r))
+    # ---- bases at the ends of the range: exactly 0 (by '.link 0', a leading '. = 0', an expression that cancels to 0),
+    # 2, the last even address; the base reported, the base in the bin header and the label values must all be that number
+    ffm = impl.mod("formats").file_formats
+    for text, want_base in [(".link 0\nst: nop\nmsg: .word st, msg\n", 0), (". = 0\nst: nop\nmsg: .word st, msg\n", 0),
+                            (".link 2 + st - msg\nst: nop\nmsg: .word st, msg\n", 0), (".link msg - st - 2\nst: nop\nmsg: .word st, msg\n", 0),
+                            (".link 2\nst: nop\nmsg: .word st, msg\n", 2), (".link 177772\nst: nop\nmsg: .word st, msg\n", 0o177772),
+                            (".link z0\nst: nop\nmsg: .word st, msg\nz0 = 0\n", 0), ("st: nop\nmsg: .word st, msg\n", 0o1000)]:
+        files = [("/w/f0.mac", text)]
+        r = impl.assemble(files)
+        inp = {"files": files}
+        ctx.case(("edge-base", text))
+        ctx.count("bases at the ends of the range")
+        want_code = bytes([0xa0, 0]) + (want_base & 0xFFFF).to_bytes(2, "little") + ((want_base + 2) & 0xFFFF).to_bytes(2, "little")
+        if r.outcome != "ok" or r.base != want_base or r.code != want_code:
+            ctx.violation("the load address is not the value the source states (a base at the end of the range)", inp,
+                          expected={"base": want_base, "code": want_code.hex()}, observed=r.summary())
+        elif ffm["bin"](r.base, r.code)[:2] != (want_base & 0xFFFF).to_bytes(2, "little"):
+            ctx.violation("the bin header does not carry the load address", inp, expected=want_base, observed=ffm["bin"](r.base, r.code)[:4].hex())
+        reqs.append(asmrun.asm_request(files, 1))
+        jobs.append((inp, r))
     # ---- the same skips when nothing is known yet where the '. =' stands: the amount, the target or the link base are defined
     # further down, the link expression mentions labels behind the skip, and more statements follow the skip
     for it in range(1200 if ctx.thorough else 300):
